@@ -33,7 +33,9 @@ ResolveFrame(ep, r) ==
      b |-> IF r.kind # "RR" THEN 0 ELSE IF r.bm = "abs" THEN r.bv ELSE ep.nout + r.bv,
      e |-> IF r.kind # "RR" THEN 0 ELSE IF r.em = "abs" THEN r.ev ELSE ep.nout + r.ev,
      trid |-> IF r.trid = "match" THEN (IF ep.treq = 0 THEN "77" ELSE ToString(ep.treq))
-              ELSE IF r.trid = "wrong" THEN "12345" ELSE r.trid,
+              ELSE IF r.trid = "wrong" THEN "12345"                       \* numeric, below any pending id
+              ELSE IF r.trid = "wronghi" THEN ToString(ep.treq + 1)          \* numeric, just above the pending id
+              ELSE IF r.trid = "wrongtxt" THEN "abc" ELSE r.trid,
      pay |-> IF r.kind = "APP" THEN "11=p" \o ToString(seq) ELSE "", text |-> FALSE, hdr |-> r.hdr]
 ResolveSend(ep, r) ==
     [kind |-> r.kind, seq |-> IF r.seqm = "none" THEN 0 ELSE ep.nout + r.seqv, pd |-> r.pd, gf |-> r.gf,
@@ -54,6 +56,7 @@ SendEv(m) == [t |-> "send", m |-> m]
 RelFrames ==
     { RF("APP", rel, pd) : rel \in {-1, 0, 1, 3}, pd \in BOOLEAN }
     \cup { [RF("HB", rel, FALSE) EXCEPT !.trid = x] : rel \in {0, 1}, x \in {"", "match", "wrong"} }
+    \cup { [RF("HB", 0, FALSE) EXCEPT !.trid = x] : x \in {"wronghi", "wrongtxt"} }
     \cup { [RF("TR", rel, FALSE) EXCEPT !.trid = "T1"] : rel \in {0, 1} }
     \cup { [RF("RR", rel, FALSE) EXCEPT !.bm = bm, !.bv = bv, !.em = em, !.ev = evv] :
              rel \in {0, 1},
